@@ -228,24 +228,24 @@ PROPS = {
 # Additions to the generation rules made while testing the checks against seeded changes (DESIGN.md section 8).
 RULE_ADDENDA = {
     "C01": "option-set encodings (values of 0..511 octets) cut at every instance boundary and inside instances, through Options.FromBytes: a cut inside an instance is an error; header fields with boundary patterns (all-zero / all-ones xid, secs, flags; op 0/1/2/255); option-area sweep: one option of every length 0..130 and 240..270 next to a message type; the whole campaign a second time on a 32-bit target (GOARCH=386); every code 1..254 with an empty, each small one-octet and a two-octet value next to present server-name / boot-file fields; long values whose 255-octet instances are equal octet strings (periods 1, 3, 5, 15, 17, 51, 85, 255); the same packet assembled from one flat record (adjacent sub-slices with spare capacity of one array): same octets, nothing written into the record; a sample of the cases re-run on 8 goroutines at once; option values that refer to header fields as the RFCs define them (client identifier with the hardware type as its type octet and chaddr of 0 / 6 / 16 octets, requested address = yiaddr)",
-    "C02": "list-valued options now and then with 9, 12, 17, 33 or 65 items (past the sizes at which code switches strategy); edge-aware numeric fields (0, 1, 0x7f../0x80.., max); byte strings with lengths around 63/64, 127/128/130, 253-257; names of exactly 250..253 octets; special address forms (IPv4-mapped, zero, loopback, link-local, multicast); sub-option codes that collide with top-level codes; decoded-then-edited names (another name, another case, another order, appended) must round-trip; 32-bit target pass; concurrent re-run of a sample of the cases; among the edits of decoded names: a label moved across the boundary between two neighbouring names (same labels, same count, other names)",
-    "C04": "decoded options also read through Options.Has / Options.Get (presence incl. empty values, absence of every other code); sname / file fields in every shape: text of length 0, 1, 2, half, width-2, width-1, width (no terminator), followed by NUL padding, by a NUL and stale text, or by stale octets up to a final NUL; whole-cookie variants (zero, all ones, byte-swapped, partially zero) on 240-, 300-octet and full packets; 32-bit target pass; each accepted input decoded again after the first result was edited (option added, changed, removed; header fields changed): decodings are independent values; option areas of pad octets only, of every length to 80 and some to 1260, without End, with End first / in the middle / last, and with a code whose length octet is missing",
-    "C03": "every DHCPv4 option code 1..254 with values of 0..3 octets, all observers; vendor strings for the provisioning extractors: every string literal found in ztpv4 / ztpv6 / netboot sources on this run x 6 separators x 0..6 fields, carried in DHCPv6 options 16, 17 and DHCPv4 options 60, 43, 124, 125; raw frames swept: IHL 0..15 x 18 frame lengths x 12 total-length values (0, 1, around header and frame length, 0xffff) x 6 UDP-length values; structure-aware malformation: every known DHCPv6 option type with its value cut at every position, lengthened by 1..3 octets and with every inner 16-bit field perturbed (+1, -1, +256, 0xffff) under intact outer framing, alone (ParseOption), in a message, inside an IA_NA and inside a relay message, observers run on every accepted one; every DHCPv4 option that has a typed reader with its value cut at every position in an otherwise valid packet, all observers run; 32-bit target pass; concurrent re-run; DecapsulateRelayIndex with indexes at and beyond the nesting depth; a busy link: 200000 (thorough: 3000000) well-formed IPv4 packets for others, then the reader's datagram, inside one ReadFrom call, in a child process with a 16 MiB stack limit; circuit descriptions for ztpv6.ParseRemoteID (Remote-ID and Interface-ID of the innermost relay): 11 forms, alone and in every ordered pair joined by nothing, a comma or a space",
+    "C02": "list-valued options now and then with 9, 12, 17, 33 or 65 items (past the sizes at which code switches strategy); edge-aware numeric fields (0, 1, 0x7f../0x80.., max); byte strings with lengths around 63/64, 127/128/130, 253-257; names of exactly 250..253 octets; special address forms (IPv4-mapped, zero, loopback, link-local, multicast); sub-option codes that collide with top-level codes; decoded-then-edited names (another name, another case, another order, appended) must round-trip; 32-bit target pass; concurrent re-run of a sample of the cases; among the edits of decoded names: a label moved across the boundary between two neighbouring names (same labels, same count, other names); name lists in which a name occurs twice (each occurrence is written out in full)",
+    "C04": "decoded options also read through Options.Has / Options.Get (presence incl. empty values, absence of every other code); sname / file fields in every shape: text of length 0, 1, 2, half, width-2, width-1, width (no terminator), followed by NUL padding, by a NUL and stale text, or by stale octets up to a final NUL; whole-cookie variants (zero, all ones, byte-swapped, partially zero) on 240-, 300-octet and full packets; 32-bit target pass; each accepted input decoded again after the first result was edited (option added, changed, removed; header fields changed): decodings are independent values; option areas of pad octets only, of every length to 80 and some to 1260, without End, with End first / in the middle / last, and with a code whose length octet is missing; packets whose client identifier's type octet is the hardware type, with chaddr of 0 / 6 / 16 octets (the header is read from the header)",
+    "C03": "every DHCPv4 option code 1..254 with values of 0..3 octets, all observers; vendor strings for the provisioning extractors: every string literal found in ztpv4 / ztpv6 / netboot sources on this run x 6 separators x 0..6 fields, carried in DHCPv6 options 16, 17 and DHCPv4 options 60, 43, 124, 125; raw frames swept: IHL 0..15 x 18 frame lengths x 12 total-length values (0, 1, around header and frame length, 0xffff) x 6 UDP-length values; structure-aware malformation: every known DHCPv6 option type with its value cut at every position, lengthened by 1..3 octets and with every inner 16-bit field perturbed (+1, -1, +256, 0xffff) under intact outer framing, alone (ParseOption), in a message, inside an IA_NA and inside a relay message, observers run on every accepted one; every DHCPv4 option that has a typed reader with its value cut at every position in an otherwise valid packet, all observers run; 32-bit target pass; concurrent re-run; DecapsulateRelayIndex with indexes at and beyond the nesting depth; a busy link: 200000 (thorough: 3000000) well-formed IPv4 packets for others, then the reader's datagram, inside one ReadFrom call, in a child process with a 16 MiB stack limit; circuit descriptions for ztpv6.ParseRemoteID (Remote-ID and Interface-ID of the innermost relay): 11 forms, alone and in every ordered pair joined by nothing, a comma or a space; vendor data whose fields are bare dictionary words (a key without a value), enterprise number 9 among the carriers",
     "C05": "nesting depth ladder (relay in relay, IA in IA) at depths 1..257 around 8/16/32/64/128/256; every known option type, and every name field over a small alphabet of lengths / pointers / letters in options 24, 39, 56/3, preceded and followed by an option whose code has a non-zero high octet (neighbour independence); no entry point may modify its input (checked on every case of every property); names of dotted length 250..256 and 319 ended by a zero, by the end of the value, by another name or lengthened by a compression pointer, in options 24, 39, 56/3 alone, in a message and inside an IA_NA; same value generators as C02; 32-bit target pass (lifetimes and timers >= 2^31 included); concurrent re-run of 4000 cases on 8 goroutines; for every known option code the all-zero body of a generated instance and the same with each single octet set to 1, 0x80, 0xff (also with the first octet 0x80), as option and inside a message",
     "C06": "relay headers cut to 2..34 octets followed by an option list, alone and nested in a relay-message option; every known option type with each octet of its value set to 0, 1, 32, 33, 127, 128, 129, 255 in turn; the decoded and the re-decoded message must also print alike; text-like values with a tail or head a decoder might trim (runs of NUL, blanks, line ends, dots, slashes); durations dumped exactly (values no 32-bit field can carry never compare equal); known finding F12 input and its non-overflowing neighbour; 32-bit target pass; every known DHCPv6 option code with every one-octet and every two-octet payload (all 65536 values of each 16-bit field): decode, encode, decode gives the value first decoded and prints alike; numeric fields drawn now and then from the integer literals of the library's own source; the same one-field-says-something bodies through decode, encode, decode",
     "C07": "two packets derived from one decoded request (options copied, then extended): the first keeps its encoding; option values cut from one buffer; option sets containing 82 together with 254, 253, 81, 83, 1; the same contents put in through UpdateOption / WithOption in every insertion order (an empty value is a value); independent decoder also compares op/htype/hops/xid/secs/flags, the four addresses, chaddr (16 octets), sname/file and their zero fill; packets built through the typed constructors keep their option values while other packets are built and encoded; 32-bit target pass; option sets of 7..254 distinct codes with and without 82 and with codes on both sides of it, four insertion orders each",
     "C08": "name sets inside a decoded message handed a buffer that fails to decode, the buffer then overwritten: the message is unchanged; non-canonical DHCPv4 wire inputs (repeated codes, zero-length first instances); two encodings of one value held at once; an earlier output vs a later edit+encoding; outputs of different values tracked across encodings; dhcpv4 Options.FromBytes and RelayOptions.FromBytes as entry points of their own: decoded from the caller's buffer, buffer overwritten, encoding and printed form unchanged",
     "C09": "IA / relay nests with a malformed innermost item (the failure travels up through every level); pointer chains (each name one label plus a pointer to the start of the previous name), pointers to pointers, self and mutual pointers, bare pointers past the 14-bit range; size ladder 64,96,128,...,65507; dual-reading label regions with backward and forward pointer fans; every option type with a 0xff run as value; decoded names checked against the proved bound on every run; every container type (IA_NA, IA_PD, IA_TA, IA address, IA prefix, vendor options) nested to the maximum with an unassigned-code leaf per level; besides the reflective size, the live-heap difference with only the decoded value kept alive (collector-measured, so a short view that pins a large backing array is charged for the array): <= 300 n + 65536; names whose label contents spell a second label chain in another alignment, followed by bare pointers into the middle of a label",
     "C10": "7 late datagrams for the id of a call that ended by a write error, its timeout, its context or its answer, while another call waits; the id is then reused; answers that are read and routed by the receive loop before WriteTo returns to the transmitting call (5 / 100 rounds of 1..4 calls per client); wrong-hardware datagrams whose chaddr field holds the client address while the length octet says 0, 3, 7 or 16; 12 datagrams for a matcher-held call (more than the 7 that fit in flight), first acceptable at positions 8..11, with GOMAXPROCS 1, 2 and default (12 / 200 rounds per client); id reused at once after a call that returned with a full buffer and a datagram parked in the receive loop (60 / 1500 rounds per client); non-BOOTREPLY opcodes 0/3/0x82/0xff; foreign / empty / shorter / longer chaddr; datagrams of realistic length; optional dropped-packet and debug logging; held-matcher scenarios (all n<=7 x first acceptable position) compared with the hand-over machine; 600 rounds of 4..16 simultaneous callers with one id; every scenario under a 20 s real-time watchdog; for DHCPv6, replies wrapped in one or three Relay-reply / Relay-forward headers sent to the client (not for a client: dropped); replies of 600..1400 octets (a long option 43 / a long generic DHCPv6 option) among the routed datagrams; every third call names another hardware address in its request (the one foreign address the scripted datagrams use): the replies taken are still those for the client's own address",
-    "C11": "call B reuses the id of call A that returns with a full buffer and a parked datagram, B started before (queued on the registry lock) or after A returned: B must end with its own answer (40 / 1000 rounds per client); contexts ended by cancel or by their own deadline; stray datagrams (other id); connections whose Close reports an error; id reuse after every kind of ending (timeout, failed write, cancel, response); 0..2 earlier unanswered calls on the same client; contexts that carry a cause (context.WithCancelCause, WithTimeoutCause): the call still returns the context's error",
+    "C11": "call B reuses the id of call A that returns with a full buffer and a parked datagram, B started before (queued on the registry lock) or after A returned: B must end with its own answer (40 / 1000 rounds per client); contexts ended by cancel or by their own deadline; stray datagrams (other id); connections whose Close reports an error; id reuse after every kind of ending (timeout, failed write, cancel, response); 0..2 earlier unanswered calls on the same client; contexts that carry a cause (context.WithCancelCause, WithTimeoutCause): the call still returns the context's error; the lease helpers (RapidSolicit, Solicit+Request, DHCPv4 Request) against a server that answers the first message and then nothing, the context cancelled 50 ms after the second message went out: the helper returns at that instant with the context's error",
     "C12": "0..2 companion calls overlapping the observed one on the same client (started half a timeout before / after it); requested destinations incl. unicast, other port, IPv6 zone; three logger configurations; requests whose option request list is not in code order; 0..2 earlier unanswered calls on the same client; thorough: timeouts 1 ms .. 120 s, tries 0..9; the lease helpers (DiscoverOffer, Solicit) on clients configured with WithServerAddr / WithBroadcastAddr, destinations with and without zone: every transmission goes to the configured address, at the scheduled instants; 9, 10, 12 and 13 tries at T = 1 ms",
-    "C13": "IA_NA timers and address lifetimes at 0, 1, 0x80000000, 0xfffffffe, 0xffffffff; the IA_NA of the transmitted REQUEST compared octet for octet with the one in the received ADVERTISE (plain TLV walk); scripted replies carry optional extra options (DHCPv4 80 rapid commit, 51, 58, 59, 61, 82, 116, 52; DHCPv6 14 rapid commit, 7, 12, 20, 13); OFFER address differs from the ACK's; random siaddr/giaddr; wrong-opcode and wrong-hlen replies; IA_NA with 0..3 addresses and a status code; late answers to the SOLICIT during the REQUEST phase; replies whose siaddr is one of the servers' addresses (the selected one included) whatever their server identifier; the clients built with and without dropped-datagram logging, summary and debug loggers; a server identifier option that says 0.0.0.0, distinct from no server identifier",
-    "C14": "decodable datagrams of 4095 / 4096 / 4097 / 4100 octets (the read buffer size and its neighbours; a longer one is seen cut to 4096); bare and nested bare relays; runs of 60 malformed nested relays before ordinary traffic; 200 decodable datagrams with all handlers outstanding; Close landing while a datagram is being returned; handler-side snapshot of message and peer at start vs end; 1500 decodable datagrams whose handlers are all still running when the last is read; the failed read that ends the loop is of every kind (plain error, expired deadline, EOF, an error calling itself temporary) and what follows it in the script is never read; the servers built with the default, summary and debug loggers",
-    "C15": "packets built from one decoded request are independent values: a second build (options copied / extended) changes neither the first packet nor the request; last-word oracle also for option-setting modifiers (WithGeneric incl. empty values, WithoutOption, WithMessageType, WithLeaseTime); option values of 254..600 octets in sources and modifiers; xid and address boundary values (zero, broadcast); modifier lists built by append and passed to a builder before (whole or as a prefix); direct oracle that the caller's last field-setting modifier prevails; NewDiscoveryForInterface against NewDiscovery with the interface's hardware address, for six modifier lists (some setting the hardware address), on up to three interfaces of the host that have one",
-    "C16": "forward chains cut short below the top (a relay level without relayed message): no relay-reply, no inner message; link / peer addresses handed to EncapsulateRelay as 16 octets, 4 octets, nil or another length: on the wire the 16-octet form; every message type 0..14 x presence of client id / server id / IA_NA / rapid commit for the three builders; special address forms; edit of the innermost message after an earlier encoding; hop-count octets that do not follow the nesting (all zero, counted from one, arbitrary); the client identifier held as a generic option gives the same advertise / reply; relay levels carrying two Interface-IDs or two Remote-IDs (the first is the level's); levels below the top typed Relay-reply in one chain out of four",
+    "C13": "IA_NA timers and address lifetimes at 0, 1, 0x80000000, 0xfffffffe, 0xffffffff; the IA_NA of the transmitted REQUEST compared octet for octet with the one in the received ADVERTISE (plain TLV walk); scripted replies carry optional extra options (DHCPv4 80 rapid commit, 51, 58, 59, 61, 82, 116, 52; DHCPv6 14 rapid commit, 7, 12, 20, 13); OFFER address differs from the ACK's; random siaddr/giaddr; wrong-opcode and wrong-hlen replies; IA_NA with 0..3 addresses and a status code; late answers to the SOLICIT during the REQUEST phase; replies whose siaddr is one of the servers' addresses (the selected one included) whatever their server identifier; the clients built with and without dropped-datagram logging, summary and debug loggers; a server identifier option that says 0.0.0.0, distinct from no server identifier; ACKs that echo a ciaddr different from yiaddr before a renewal",
+    "C14": "decodable datagrams of 4095 / 4096 / 4097 / 4100 octets (the read buffer size and its neighbours; a longer one is seen cut to 4096); bare and nested bare relays; runs of 60 malformed nested relays before ordinary traffic; 200 decodable datagrams with all handlers outstanding; Close landing while a datagram is being returned; handler-side snapshot of message and peer at start vs end; 1500 decodable datagrams whose handlers are all still running when the last is read; the failed read that ends the loop is of every kind (plain error, expired deadline, EOF, an error calling itself temporary) and what follows it in the script is never read; the servers built with the default, summary and debug loggers; DHCPv4 handlers set the address of the peer they were given when they are done (no other handler's peer moves)",
+    "C15": "packets built from one decoded request are independent values: a second build (options copied / extended) changes neither the first packet nor the request; last-word oracle also for option-setting modifiers (WithGeneric incl. empty values, WithoutOption, WithMessageType, WithLeaseTime); option values of 254..600 octets in sources and modifiers; xid and address boundary values (zero, broadcast); modifier lists built by append and passed to a builder before (whole or as a prefix); direct oracle that the caller's last field-setting modifier prevails; NewDiscoveryForInterface against NewDiscovery with the interface's hardware address, for six modifier lists (some setting the hardware address), on up to three interfaces of the host that have one; a caller's WithReply(other) after each builder's defaults: opcode opposite to other's, other's xid / chaddr / flags",
+    "C16": "forward chains cut short below the top (a relay level without relayed message): no relay-reply, no inner message; link / peer addresses handed to EncapsulateRelay as 16 octets, 4 octets, nil or another length: on the wire the 16-octet form; every message type 0..14 x presence of client id / server id / IA_NA / rapid commit for the three builders; special address forms; edit of the innermost message after an earlier encoding; hop-count octets that do not follow the nesting (all zero, counted from one, arbitrary); the client identifier held as a generic option gives the same advertise / reply; relay levels carrying two Interface-IDs or two Remote-IDs (the first is the level's); levels below the top typed Relay-reply in one chain out of four; one Interface-ID / Remote-ID option value put on every level of a chain",
     "C17": "for every accessor and every length: a right-aligned form (zeros, ff ff, four octets: the IPv4-mapped shape at 16 octets) and a left-aligned form (four octets then zeros); set/get through every typed constructor with full equality and after a wire trip; read-edit-set of parsed search domains; one caller-owned value shared by two packets then updated in one; 32-bit target pass; values of 248..520 octets for every accessor; well-formed route lists of 28..64 routes per width (every remaining length around 256 at a route boundary); route lists ending in every way (nothing, a valid width alone, a width 33..255, a width and part of what follows); search lists of 1..60 short names that end in compression pointers into one full name; durations set with a fraction of a second (1 ns, 500 ms, 999999744 ns, 999999999 ns) on seconds parts 0, 1, 2^24, 2^24+1, one year, 2^31, 2^32-2, 2^32-1 and random: the whole seconds are what is read back; a last name of 4..6 labels of 50..63 octets with and without terminator, alone, behind a valid name, behind a pointer",
-    "C18": "total lengths around the multiples of 256 (low octet of the length field between 253 and 24); two deviations per frame; IP options with total lengths around the header length; bound addresses 0.0.0.0 / 255.255.255.255 / 127.0.0.1; destinations 0.0.0.0 and broadcast; 32-bit target pass; two writes overlapping in time on one connection (the socket takes the first write's octets only after the second was made): each frame is the frame of its own datagram; received frames with arbitrary type of service, identification, Don't-Fragment, time to live, header checksum and IP option octets; frames whose source port equals the destination (bound) port, half of them with the source address equal to the destination address",
-    "C19": "a value holding a parsed set is given bytes that fail to decode: it still encodes to what it held; names completed through a pointer whose prefix (1..253 octets) and target (1..253 octets) are each within the limit while the whole may not be; the boundary family of C05; sequences of three edits on parsed and on constructed values with an encoding after each (a second in-place edit, an edit back to the received names); pointers into the middle of a label (dual readings); in-place edits (element, swap, sort, case only, reslice, append) after ToBytes/Length; names through the DHCPv6 options 24/39/56-3 and DHCPv4 119 must re-encode verbatim; 32-bit target pass; an edited value is decoded into again (the same octets, other octets, the same again): it holds what the octets say and re-encodes to them; what a caller took out of a value (its Labels slice) before the value is decoded into again stays as it was",
+    "C18": "total lengths around the multiples of 256 (low octet of the length field between 253 and 24); two deviations per frame; IP options with total lengths around the header length; bound addresses 0.0.0.0 / 255.255.255.255 / 127.0.0.1; destinations 0.0.0.0 and broadcast; 32-bit target pass; two writes overlapping in time on one connection (the socket takes the first write's octets only after the second was made): each frame is the frame of its own datagram; received frames with arbitrary type of service, identification, Don't-Fragment, time to live, header checksum and IP option octets; frames whose source port equals the destination (bound) port, half of them with the source address equal to the destination address; 300 writes on one connection through one *net.UDPAddr whose IP (in place or by assignment) and port change between writes",
+    "C19": "a value holding a parsed set is given bytes that fail to decode: it still encodes to what it held; names completed through a pointer whose prefix (1..253 octets) and target (1..253 octets) are each within the limit while the whole may not be; the boundary family of C05; sequences of three edits on parsed and on constructed values with an encoding after each (a second in-place edit, an edit back to the received names); pointers into the middle of a label (dual readings); in-place edits (element, swap, sort, case only, reslice, append) after ToBytes/Length; names through the DHCPv6 options 24/39/56-3 and DHCPv4 119 must re-encode verbatim; 32-bit target pass; an edited value is decoded into again (the same octets, other octets, the same again): it holds what the octets say and re-encodes to them; what a caller took out of a value (its Labels slice) before the value is decoded into again stays as it was; octets that do not decode handed to a used value: names and wire form stay",
     "C20": "constructed DHCPv6 options holding an item of 64 KiB between encodable items (boot file parameters, user class, vendor class, boot file URL), alone and in a message; DHCPv4 option sets containing 82 together with 254, 253, 81, 83, 1 (keys an ordering rule may rank alike); parameter request lists in shapes a helper may special-case (sorted, sorted with a repeated code followed by others, descending, all equal, ascending except the last); every subject generated twice and observed in both orders (encoding first / methods first); label sets with empty and repeated names; messages repeating singleton options; random routes; hardware addresses and names longer than their fields; End/Pad codes as map keys; the exported package-level readers (ExtractMAC, DecapsulateRelay, DecapsulateRelayIndex, GetTransactionID, OptRelayMessage, GetMacAddressFromEUI64) on generated, relayed (EUI-64 peer addresses, with and without client link-layer address option) and decoded messages; twins decoded from the same compressed octets, edited and restored alike, one of them read (Length, ToBytes, String) while edited: they encode alike; names written with a trailing dot, a leading dot, two dots in a row",
 }
 for _k, _v in RULE_ADDENDA.items():
